@@ -281,6 +281,18 @@ def run(chk, tier):
             if not bad:
                 nread += p["nR"]
     chk.count("X-INIT", nread, ["crypt-grid"])
+    chk.rule("X-RESULT-FRESH", "the returned string, terminator included, is written by this call (a result that runs on into bytes the object held before depends on the call history)")
+    nfresh = 0
+    for cid, c in sorted(g["res"].items()):
+        for p in c["paths"]:
+            if not p["ret"].startswith("ptr:") or any(a["kind"] in KO.HARD for a in p["alarms"]):
+                continue
+            ok, ln, chars = KO.terminated(p)
+            if not ok:
+                chk.fail("X-RESULT-FRESH", "%s" % g["meta"][cid]["base"], "crypt_rn returns a string whose terminator this call did not write: what follows the characters it wrote is the previous content of the output field [%s]" % KO.desc(g, cid), "lib/", {"cell": cid})
+            else:
+                nfresh += 1
+    chk.count("X-RESULT-FRESH", nfresh, ["crypt-grid"])
     chk.rule("X-AMBIENT", "errno is never read before the call itself has stored to it (the caller's errno is ambient state)")
     namb = 0
     for cid, c in sorted(g["res"].items()):
